@@ -241,6 +241,15 @@ func (ex *Exec) vfCall(name string, args []Value) Value {
 		return c.Ite(args[0].(*term.T), args[1].(*term.T), args[2].(*term.T))
 	case "Done":
 		return nil
+	case "Snapshot":
+		sl := args[0].(Slice)
+		loc := new(Value)
+		if sl.Base == nil {
+			*loc = BArr{A: c.ZeroArr(), N: -1}
+			return Slice{Base: loc, Byte: true, Off: ex.constInt(0), Len: sl.Len, Cap: sl.Len}
+		}
+		*loc = BArr{A: (*sl.Base).(BArr).A, N: -1}
+		return Slice{Base: loc, Byte: true, Off: sl.Off, Len: sl.Len, Cap: sl.Len}
 	case "Thorough":
 		return c.Bool(Tier == "thorough")
 	case "ThoroughOnly":
